@@ -179,6 +179,11 @@ const (
 
 func c19Metadata(which string) []byte {
 	ent, acs := c19EntA, c19AcsA
+	if which == "agg[idp,B,Ac]" { // a federation aggregate: an IdP-only entity, then SP B, then SP Ac. What a service stands for is the first SP in it
+		idpOnly, _ := xml.Marshal(saml.EntityDescriptor{EntityID: "https://some-idp.example.org/metadata", IDPSSODescriptors: []saml.IDPSSODescriptor{{SSODescriptor: saml.SSODescriptor{RoleDescriptor: saml.RoleDescriptor{ProtocolSupportEnumeration: "urn:oasis:names:tc:SAML:2.0:protocol"}},
+			SingleSignOnServices: []saml.Endpoint{{Binding: saml.HTTPRedirectBinding, Location: "https://some-idp.example.org/sso"}}}}})
+		return []byte(`<EntitiesDescriptor xmlns="urn:oasis:names:tc:SAML:2.0:metadata" Name="urn:example:federation">` + string(idpOnly) + string(c19Metadata("B")) + string(c19Metadata("Ac")) + `</EntitiesDescriptor>`)
+	}
 	switch which {
 	case "A2":
 		acs = c19AcsA2
@@ -478,6 +483,14 @@ func c19Actions() []c19Action {
 			return false, "", "", ""
 		}})
 	}
+	acts = append(acts, c19Action{name: "PUT service s2=aggregate[idp-only,B,Ac]", req: func(*c19Model) c19Req {
+		return c19Req{method: "PUT", path: "/services/s2", body: string(c19Metadata("agg[idp,B,Ac]"))}
+	}, apply: func(m *c19Model, rep *c19Reply) (bool, string, string, string) {
+		if rep.code < 300 {
+			m.services["s2"] = "B" // the first SP of the aggregate
+		}
+		return false, "", "", ""
+	}})
 	for _, n := range []string{"s1", "s2"} {
 		n := n
 		acts = append(acts, c19Action{name: "DELETE service " + n, req: func(*c19Model) c19Req { return c19Req{method: "DELETE", path: "/services/" + n} },
